@@ -30,6 +30,19 @@ def gen(rng, n):
             lay.top[blocked] = ['file', 'file']
         s, m = putlib.gen_put(rng, nargs=rng.randint(1, 5), layout=lay, allow_mount=False)
         args = m['args']
+        if blocked and rng.random() < 0.5:
+            # entries of every kind on the volume where nothing can be trashed: each must be reported as a failure, with or without -f
+            for k, (kind, node) in enumerate([('lx', ['l', blocked + '/dangle', 'no/where']), ('f', ['f', blocked + '/plain', 'p']),
+                                              ('ld', ['l', blocked + '/tolink', '/canary'])]):
+                if rng.random() < 0.6:
+                    s['tree'].append(node)
+                    args.append({'arg': node[1], 'kind': kind, 'entry': node[1], 'expect': 'trash'})
+            av0 = s['steps'][0]['argv']
+            if s['steps'][0].get('stdin') is not None:
+                s['steps'][0]['stdin'] += ''.join(rng.choice(['y\n', 'n\n', 'Y\n', '\n']) for _ in range(4))     # one reply per argument
+            if m['mode'] == 'plain' and rng.random() < 0.5:
+                s['steps'][0]['argv'] = ['-f'] + av0
+                m['mode'] = 'force'
         rng.shuffle(args)
         av = s['steps'][0]['argv']
         s['steps'][0]['argv'] = av[:av.index('--') + 1] + [a['arg'] for a in args]
